@@ -356,7 +356,10 @@ HandleFutureVote(x, kind, msg) ==
                        (IF t \in DOMAIN cur THEN cur[t] ELSE {})
                        \cup (IF t \in DOMAIN msg.proofs THEN {P(e) : e \in msg.proofs[t]} ELSE {})]
           increased == \E t \in DOMAIN merged : t \notin DOMAIN cur \/ merged[t] # cur[t]
-      IN IF bad THEN [x EXCEPT !.res = "BadSignature"]
+          \* votes already stored for this round under another key set: signatures of two sets cannot share one proof
+          storedKH == IF kind = "prevote" THEN rec.pvKH ELSE rec.pcKH
+      IN IF storedKH # "none" /\ storedKH # msg.pkh THEN [x EXCEPT !.res = "BadPubKeyHash"]
+         ELSE IF bad THEN [x EXCEPT !.res = "BadSignature"]
          ELSE IF ~increased THEN [x EXCEPT !.res = "NoNewSignatures"]
          ELSE LET rec2 == IF kind = "prevote" THEN [rec EXCEPT !.pv = merged, !.pvKH = msg.pkh]
                                               ELSE [rec EXCEPT !.pc = merged, !.pcKH = msg.pkh]
@@ -632,7 +635,10 @@ DownKS == [down |-> TRUE]
 \* loadInitialView: signatures from the round store are re-verified; an empty or non-verifying
 \* stored list panics in toFullProofMap
 LoadRound(s, h, r, v) ==
-  LET rec == RoundOf(s, h, r)
+  LET rec0 == RoundOf(s, h, r)
+      \* votes stored under another key set than the one this height turned out to have are not loaded
+      rec == [rec0 EXCEPT !.pv = IF rec0.pvKH \in {"none", v} THEN @ ELSE EmptyFn,
+                          !.pc = IF rec0.pcKH \in {"none", v} THEN @ ELSE EmptyFn]
       bad == \E t \in DOMAIN rec.pv : rec.pv[t] = {} \/ ~(rec.pv[t] \subseteq 1..NPos(v))
       bad2 == \E t \in DOMAIN rec.pc : rec.pc[t] = {} \/ ~(rec.pc[t] \subseteq 1..NPos(v))
   IN [phs |-> rec.phs \cup {[hdr |-> l, prop |-> 0] : l \in {x \in ReplayedAt(s, h) : x \in DOMAIN rec.pc}},
